@@ -184,6 +184,14 @@ class ApplyLayoutCastSubviewGlobal(RewritePattern):
         if not isinstance(const_type.layout, builtin.NoneAttr):
             return
 
+        # the tile must start on a tile boundary of the new layout and be taken with unit strides
+        tile_shape = op.dest.type.get_shape()
+        for offset, stride, tile_size in zip(
+            subview.static_offsets.get_values(), subview.static_strides.get_values(), tile_shape
+        ):
+            if stride != 1 or (offset != builtin.DYNAMIC_INDEX and offset % tile_size != 0):
+                return
+
         # find current strides
         current_stride = max(cast(int, stride.bound) * cast(int, stride.step) for _, _, stride in layout.data)
         new_tstrides: list[TiledStride] = []
